@@ -473,7 +473,14 @@ class Set(ProxyValue):
 
     def get_hash(self, data: Optional[bytes] = None) -> str:
         # Sort the set to ensure stable serialization and hashing.
-        bytes = pickle_dumps(sorted(self.instance))
+        try:
+            items = sorted(self.instance)
+        except builtins.TypeError:
+            # Elements that cannot be ordered (e.g. lazy Expressions or mixed types) are
+            # ordered by their hashes instead.
+            registry = get_type_registry()
+            items = sorted(self.instance, key=registry.get_hash)
+        bytes = pickle_dumps(items)
 
         # Use a unique tag to distinguish from hashing a list.
         return hash_tag_bytes("Value.set", bytes)
